@@ -18,8 +18,17 @@ threads perform arbitrary access sequences consistent with the classification, i
 * `C11_unguarded_counterexample`, `C11_prefix_table_counterexample`, `C11_shared_write_counterexample` — the code
                          before the three `fix:` commits (unguarded random sources; in-place metadata rendering) is
                          refuted: rejected table, racy trace, cross-instance read.
+* `C11_drf_handover_programs` — the same for programs that also contain `take … bare accesses … give` sections on
+                         objects that change hands (samples: pool → instance → aggregator → pool; pooled ammo), each
+                         program satisfying the per-thread ownership discipline `progOk` (`Model/C11Own.lean`).
+* `C11_owned_exclusive` — while a thread holds the token of such an object nobody else accesses it.
+* `C11_report_twice_counterexample`, `C11_unlocked_fastpath_counterexample` — a gun that reports a sample and then
+                         tags and reports it again, and a `Next` with a lock-free look-up before the locked insert, are
+                         refuted in the model (discipline violated / table rejected, ill-formed and racy trace).
 * `C11_gun_exclusive`  — guns of different instances are distinct objects and at no time are two `Shoot` calls in
                          progress on one gun, for every order of instance starts and instance moves.
+* `C11_engine_gun_facts` — the call sites of the gun factory, of `Shoot`, of `newInstance` and of `instance.Run` in
+                         the current source of `core/engine` (regenerated) are what the engine model's actions stand for.
 * `C11_no_cross_instance_effect` — what an instance reads from its own and from read-only shared objects (ammo,
                          scenario definition, templates, metadata, variables) is what it would read running alone.
 
